@@ -560,7 +560,7 @@ impl<'a> Runner<'a> {
             if len > 2 && !owner {
                 return true;
             }
-            if *idx % 512 == 0 && self.ctx.expired() {
+            if self.ctx.expired() {
                 rep.capped(&format!("deadline in pass {} at length {}", pass.name, len));
                 return false;
             }
